@@ -355,6 +355,29 @@ def one(rp, sb, p, case, uid):
     return task, launcher, res
 
 
+def run_sync(rp, sb, p, ranks, uid):
+    """a task of several ranks with `pre_exec_sync`: the ranks run at the same time and reach the synchronisation behind
+    their pre_exec section highest rank first, rank 0 last; every rank has to get past it and run the executable"""
+    task = execlib.make_task(rp, sb, {'executable': sb.probe, 'arguments': ['sync'], 'ranks': ranks, 'pre_exec_sync': True,
+                                      'pre_exec': ['true']}, uid=uid)
+    launcher = execlib.make_launcher(rp, sb, ranks)
+    p._session.rcfg['task_pre_exec'] = None
+    res = execlib.run_task(rp, sb, p, task, launcher, env_extra={'RPV_MPIRUN_PARALLEL': 'reverse'}, timeout=25)
+    shutil.rmtree(task['task_sandbox_path'], ignore_errors=True)
+    return res
+
+
+def sync_part(ctx, rp, sb, p):
+    for ranks in (2, 3):
+        res = run_sync(rp, sb, p, ranks, 'task.9%05d' % ranks)
+        ctx.case({'pre_exec_sync': ranks}, nontrivial=True)
+        if res['rc'] != 0 or len(res['ranks']) != ranks:
+            ctx.fail('exec:ranks-do-not-get-past-the-pre_exec-synchronisation',
+                     '%d ranks with pre_exec_sync, rank 0 arriving last: the launch script ended %r, %d ranks ran the executable'
+                     % (ranks, res['rc'], len(res['ranks'])), {'sync': ranks}, observed={'rc': res['rc'], 'log': res['log']})
+    ctx.obligation('tasks of 2 and 3 concurrent ranks with pre_exec_sync (rank 0 reaches the synchronisation last): every rank runs the executable', 'tie', True, '')
+
+
 def run(ctx):
     rp  = rpload.load()
     rng = ctx.rng
@@ -368,6 +391,7 @@ def run(ctx):
         p   = execlib.make_executor(rp, sb)
         p.rp_ctrl = sb.ctrl
         pwd = p._pwd
+        sync_part(ctx, rp, sb, p)
         cases = [dict(c) for c in CORPUS] + [gen_case(rng, sb) for _ in range(ctx.n(140, 5000))]
         for i, case in enumerate(cases):
             uid = 'task.%06d' % i
@@ -463,7 +487,7 @@ def run(ctx):
                    '"c || rp_error" skeleton, case on $RP_RANK, wait/exit) bash is sampled, not proved',
                    'arguments/values containing $ or ` are expanded by bash by design of ru.sh_quote: outside the theorems, run in a '
                    'separate stream and only recorded', 'the executable is a word of plain characters (it is written unquoted)',
-                   'named environments, rp_sync_ranks (pre_exec_sync), startup_timeout and services are not exercised',
+                   'named environments of more than one launcher and services are not exercised',
                    'the stand-in mpirun starts the ranks one after the other and returns the first non-zero exit code']
     ctx.trusted += ['harness/execlib.py (probes, stand-in mpirun, session/registry stubs), harness/props/c10.py']
 
@@ -500,6 +524,16 @@ for c in CORPUS:
 
 def replay(ctx, data):
     rp = rpload.load()
+    if 'sync' in data['input']:
+        root = tempfile.mkdtemp(prefix='c10_')
+        try:
+            sb = execlib.Sandbox(root)
+            p  = execlib.make_executor(rp, sb); p.rp_ctrl = sb.ctrl
+            res = run_sync(rp, sb, p, data['input']['sync'], 'task.900000')
+            print(res['rc'], sorted(res['ranks']), res['log'])
+            return res['rc'] == 0 and len(res['ranks']) == data['input']['sync']
+        finally:
+            shutil.rmtree(root, ignore_errors=True)
     case = data['input']['case']
     case['codes'] = [tuple(x) for x in case['codes']]
     root = tempfile.mkdtemp(prefix='c10_')
